@@ -8,6 +8,8 @@ import SqModel.Spec.Squawk
 import SqModel.Spec.Altitude
 import SqModel.Spec.Ident
 import SqModel.Spec.Velocity
+import SqModel.Spec.Annex10
+import SqModel.Model.Country
 
 namespace Sq.Spec
 
@@ -53,6 +55,42 @@ def lineSpec (digits : Msg) : String :=
   | none => "spec accept=-"
 
 def query (_env : Env) (kind : String) (_args : List String) : String := "bad-query " ++ kind
-def countrySweep : List String := []
+/-- run-length encode (address, code) samples taken every `step` addresses -/
+def rle (step : Nat) (codes : List Nat) : List (Nat × Nat × Nat) :=
+  let rec go (i : Nat) (cur : Option (Nat × Nat)) (acc : List (Nat × Nat × Nat)) : List Nat → List (Nat × Nat × Nat)
+    | [] => match cur with
+      | some (lo, c) => ((lo, i * step - 1, c) :: acc).reverse
+      | none => acc.reverse
+    | c :: rest => match cur with
+      | some (lo, c0) => if c = c0 then go (i + 1) cur acc rest else go (i + 1) (some (i * step, c)) ((lo, i * step - 1, c0) :: acc) rest
+      | none => go (i + 1) (some (i * step, c)) acc rest
+  go 0 none [] codes
+
+/-- the model's country code of all 2^24 addresses, run-length encoded.  The nested match looks at
+    `icao >> shift` only, so it is constant on blocks of 2^(smallest shift) addresses. -/
+def countrySweep : List String :=
+  let minShift := (Gen.countryLevels.map (·.1)).foldl min 24
+  let step := 2 ^ minShift
+  let codes := (List.range (2 ^ (24 - minShift))).map fun i => countryCode (i * step)
+  (rle step codes).map fun (lo, hi, c) => "country " ++ toString lo ++ " " ++ toString hi ++ " " ++ codeString c
+
+/-- the same from the allocation table: blocks in address order, gaps unallocated -/
+def annexSweep : List String :=
+  let rec go (pos : Nat) (cur : Option (Nat × Nat × Nat)) (acc : List (Nat × Nat × Nat)) :
+      List (Nat × Nat × Nat) → List (Nat × Nat × Nat)
+    | [] => acc.reverse
+    | (lo, pl, c) :: rest =>
+      let hi := lo + 2 ^ (24 - pl) - 1
+      let acc := if pos < lo then (pos, lo - 1, unallocated) :: acc else acc
+      go (hi + 1) cur ((lo, hi, c) :: acc) rest
+  let segs := go 0 none [] annex10
+  let last := match segs.getLast? with | some (_, hi, _) => hi + 1 | none => 0
+  let segs := if last < 2 ^ 24 then segs ++ [(last, 2 ^ 24 - 1, unallocated)] else segs
+  -- merge neighbours with the same code
+  let merged := segs.foldl (fun (acc : List (Nat × Nat × Nat)) s =>
+      match acc with
+      | (lo, hi, c) :: t => if c = s.2.2 ∧ hi + 1 = s.1 then (lo, s.2.1, c) :: t else s :: acc
+      | [] => [s]) []
+  merged.reverse.map fun (lo, hi, c) => "spec-country " ++ toString lo ++ " " ++ toString hi ++ " " ++ codeString c
 
 end Sq.Spec
